@@ -43,7 +43,8 @@ View == <<held, tmpdirs, pc, att, lockHeld, examined, result, pend, ret, alive, 
           brokenLive, wrongBreak, heldAfterFail>>
 
 Mine(p) == <<p, att[p]>>
-Dir(k, p, i) == [kind |-> k, owner |-> p, info |-> i]
+\* n = the owner's attempt number when the directory was created (keeps left-over junk of earlier attempts distinct)
+Dir(k, p, i) == [kind |-> k, owner |-> p, n |-> att[p], info |-> i]
 
 Init == /\ held = IF DeadStart THEN DeadInfo ELSE None
         /\ tmpdirs = {}
@@ -71,7 +72,7 @@ HolderLive(h) == \E q \in Lockers : alive[q] /\ lockHeld[q] /\ h = Mine(q)
 Mkdir(p) ==
     /\ Live(p) /\ pc[p] = "idle" /\ att[p] < MaxAttempts /\ ~lockHeld[p]
     /\ att' = [att EXCEPT ![p] = @ + 1]
-    /\ tmpdirs' = tmpdirs \cup {Dir("pending", p, None)}
+    /\ tmpdirs' = tmpdirs \cup {[kind |-> "pending", owner |-> p, n |-> att[p] + 1, info |-> None]}
     /\ Goto(p, "put") /\ Op(p, "mkdir")
     /\ UNCHANGED <<held, lockHeld, examined, result, pend, ret, alive, faults, crashes, brokenLive, wrongBreak, heldAfterFail>>
 
@@ -151,7 +152,7 @@ RenameOut(p) ==
 
 RelDel(p) ==
     /\ Live(p) /\ pc[p] = "rel_del"
-    /\ \E d \in tmpdirs : /\ d.kind = "releasing" /\ d.owner = p /\ d.info # None
+    /\ \E d \in tmpdirs : /\ d.kind = "releasing" /\ d.owner = p /\ d.n = att[p] /\ d.info # None
                           /\ tmpdirs' = (tmpdirs \ {d}) \cup {Dir("releasing", p, None)}
     /\ Goto(p, "rel_rmdir") /\ Op(p, "delete")
     /\ UNCHANGED <<held, att, lockHeld, examined, result, pend, ret, alive, faults, crashes, brokenLive, wrongBreak, heldAfterFail>>
@@ -200,7 +201,7 @@ FbRename(p) ==
 
 FbReadBack(p) ==
     /\ Live(p) /\ pc[p] = "fb_readback"
-    /\ \E d \in tmpdirs : /\ d.kind = "broken" /\ d.owner = p /\ d.info # None
+    /\ \E d \in tmpdirs : /\ d.kind = "broken" /\ d.owner = p /\ d.n = att[p] /\ d.info # None
                           /\ IF d.info # examined[p] THEN FbRaise(p, "mismatch_after")
                                                      ELSE Goto(p, "fb_delete") /\ UNCHANGED <<result, pend>>
     /\ Op(p, "get")
@@ -208,7 +209,7 @@ FbReadBack(p) ==
 
 FbDelete(p) ==
     /\ Live(p) /\ pc[p] = "fb_delete"
-    /\ \E d \in tmpdirs : /\ d.kind = "broken" /\ d.owner = p /\ d.info = examined[p]
+    /\ \E d \in tmpdirs : /\ d.kind = "broken" /\ d.owner = p /\ d.n = att[p] /\ d.info = examined[p]
                           /\ tmpdirs' = (tmpdirs \ {d}) \cup {Dir("broken", p, None)}
     /\ Goto(p, "fb_rmdir") /\ Op(p, "delete")
     /\ UNCHANGED <<held, att, lockHeld, examined, result, pend, ret, alive, faults, crashes, brokenLive, wrongBreak, heldAfterFail>>
